@@ -375,7 +375,14 @@ func buildRaw(s shape, a *spdy.Framer, rnd *rand.Rand) (wire []byte, ex expect, 
 		}
 	}
 	if s.Len == "cut" {
-		comp = comp[:len(comp)-3]
+		// The frame ends in the middle of the compressed block.  At least 8 octets are removed:
+		// the trailing sync-flush marker (4) and the end-of-block code do not carry header
+		// octets, a reader that has all of the data may return the frame without them.
+		if len(comp) >= 16 {
+			comp = comp[:len(comp)/2]
+		} else {
+			comp = comp[:1]
+		}
 	}
 	l := uint32(len(fixed) + len(comp))
 	return ctl(typ, fl, l, append(fixed, comp...)), ex, l, nil
@@ -797,6 +804,9 @@ func framesRun() {
 		}
 		vh.Emit(runFrameCase(c))
 		n++
+		if n%64 == 0 {
+			vh.Flush() // results already produced survive a fatal error of the process
+		}
 	})
 	vh.Emit(map[string]interface{}{"summary": true, "cases": n, "alloc_unbounded": allocUnbounded, "alloc_skipped": allocSkipped})
 }
